@@ -59,6 +59,11 @@ def main(tier, seed):
         rng = random.Random("c14/%s/%s/%s" % (seed, i, b))
         if i % 3 != 0:
             tooltier.decorate(prog, rng)
+        if b == "demo_gen":
+            # demo_gen needs a constructor for every opaque it has to build: keep the decoration from disabling whole impl blocks
+            for t_ in prog.types():
+                if getattr(t_, "impl_attrs", None):
+                    t_.impl_attrs = [a for a in t_.impl_attrs if "disable" not in a]
         items = prog.modules[0].items
         k = max(1, len(items) // 2)
         m2 = spec.Module("ffi2")
